@@ -24,8 +24,8 @@ import (
 // Every entry is re-verified against the polynomial model when it is loaded.
 
 type solvedEntry struct {
-	Kind   string `json:"kind"` // "sswu" (root is u) or "iso" (root is x', with g(x') a square)
-	Step   int    `json:"step"` // index into ref.SSWUStepPolys() / ref.IsoPolys()
+	Kind   string `json:"kind"` // "sswu" (root is u), "iso" (root is x', with g(x') a square), "sswu-out" (root is u, target is an output coordinate)
+	Step   int    `json:"step"` // index into ref.SSWUStepPolys() / ref.IsoPolys(); for "sswu-out": 0 abscissa, 1 ordinate (up to sign)
 	Target string `json:"target"`
 	Root   string `json:"root"`
 }
@@ -75,6 +75,54 @@ func solveIso(k int, tau *big.Int, salt uint64) *big.Int {
 		}
 	}
 	return nil
+}
+
+// solveOutput returns inputs u whose image under the map has the abscissa (coord 0) or an ordinate +-tau (coord 1) equal to tau:
+// the ordinate's abscissae are the roots of x^3 + A'x + B' = tau^2, and u follows from x1(u) = x' (step 6 / step 8, degree 4) or
+// x2(u) = x' (step 17 / step 8, degree 6). Every u returned is verified against the model; u and -u are both returned (they map to
+// opposite ordinates, so the sign fix-up negates for one of them).
+func solveOutput(coord int, tau *big.Int, salt uint64) []*big.Int {
+	sp, _ := polys()
+	var xs []*big.Int
+	if coord == 0 {
+		if ref.IsSquare(isoRHS(tau)) {
+			xs = []*big.Int{tau}
+		}
+	} else {
+		cubic := ref.Poly{ref.FSub(ref.IsoB, ref.FMul(tau, tau)), ref.IsoA, big.NewInt(0), big.NewInt(1)}
+		xs = ref.PolyRoots(cubic, salt)
+	}
+	var out []*big.Int
+	for _, x := range xs {
+		for _, num := range []ref.Poly{sp[5], sp[16]} {
+			for _, u := range ref.PolyRoots(ref.PolySub(num, ref.PolyScale(sp[7], x)), salt+1) {
+				gx, gy, _ := ref.SSWU(u)
+				if gx.Cmp(x) != 0 || (coord == 1 && gy.Cmp(tau) != 0 && gy.Cmp(ref.FNeg(tau)) != 0) {
+					continue
+				}
+				out = append(out, u, ref.FNeg(u))
+				break // (one pair per branch is enough)
+			}
+		}
+	}
+	return out
+}
+
+// outputTargets adds, to solvedTargets, Montgomery forms with one limb saturated or zero and the others arbitrary (what a
+// limb-wise negation or comparison of a RESULT trips over).
+func outputTargets() []*big.Int {
+	out := solvedTargets()
+	rInv := new(big.Int).ModInverse(new(big.Int).Mod(new(big.Int).Lsh(bigOne, 256), ref.P), ref.P)
+	base := gen.ToLimbs(ref.Gx)
+	for i := 0; i < 4; i++ {
+		for _, w := range []uint64{^uint64(0), ^uint64(0) - 1, 0, 1, 1 << 63} {
+			l := base
+			l[i] = w
+			l[3] &= 1<<63 - 1 // (below p)
+			out = append(out, ref.FMul(gen.FromLimbs(l), rInv))
+		}
+	}
+	return out
 }
 
 // solvedTargets is the fixed target list: Montgomery forms of a few bits and next to p, the fold constant 2^256 - p and its
@@ -130,6 +178,17 @@ func computeSolved() []solvedEntry {
 			}
 		}
 	}
+	for coord := 0; coord < 2; coord++ {
+		for j, tau := range outputTargets() {
+			us := solveOutput(coord, tau, uint64(j*31+coord))
+			if len(us) > 4 {
+				us = us[:4]
+			}
+			for _, u := range us {
+				out = append(out, solvedEntry{Kind: "sswu-out", Step: coord, Target: gen.H(tau), Root: gen.H(u)})
+			}
+		}
+	}
 	return out
 }
 
@@ -146,6 +205,13 @@ func solvedFixed() []solvedEntry {
 		}
 		sp, ip := polys()
 		for _, e := range solved {
+			if e.Kind == "sswu-out" {
+				gx, gy, _ := ref.SSWU(gen.B(e.Root))
+				if t := gen.B(e.Target); (e.Step == 0 && gx.Cmp(t) != 0) || (e.Step == 1 && gy.Cmp(t) != 0 && gy.Cmp(ref.FNeg(t)) != 0) {
+					panic("harness: solved_fixed.json holds an output entry that is not a solution: " + e.Root)
+				}
+				continue
+			}
 			f := ip[e.Step%len(ip)]
 			if e.Kind == "sswu" {
 				f = sp[e.Step]
